@@ -37,4 +37,6 @@ ExpandAllViol(r) ==
   ELSE (IF r.all = FlattenSeq(r.per_op) THEN {} ELSE {"concat"})
        \cup (IF r.per_op = [i \in 1..Len(r.ops) |-> ExpectedChanges(r.ops[i], r.old, r.new)] THEN {} ELSE {"changes"})
        \cup (IF r.per_op2 = [i \in 1..Len(r.ops2) |-> ExpectedChanges(r.ops2[i], r.old, r.new)] THEN {} ELSE {"changes"})
+       \* a whole (unmerged) script re-applied op by op to one capturing hook reproduces every op
+       \cup (IF r.recaptured = r.raw THEN {} ELSE {"reapply"})
 =============================================================================
